@@ -950,6 +950,18 @@ func offsetOf(off string) time.Duration {
 // of the violations it raised.
 func runC25Scenario(r *vkit.Run, env *vkit.Env, inner storage.Storage, sc c25Scenario, bucketName string) *c25exec {
 	ctx := context.Background()
+	// Day-based rules are anchored at midnight UTC of the run day: a scenario must not
+	// straddle midnight. Instead of discarding scenarios (and ending inconclusive) when
+	// the check happens to run around midnight, wait until the window has passed (at
+	// most ~4 minutes once a day; this is a pause, no oracle reads this clock).
+	for {
+		now := time.Now().UTC()
+		day := now.Truncate(24 * time.Hour)
+		if now.Sub(day) >= 2*time.Minute && day.Add(24*time.Hour).Sub(now) >= 2*time.Minute {
+			break
+		}
+		time.Sleep(5 * time.Second)
+	}
 	start := time.Now().UTC()
 	x := &c25exec{r: r, ctx: ctx, env: env, inner: inner, sc: sc, m: newModel(), today: start.Truncate(24 * time.Hour), bucket: storage.MustNewBucketName(bucketName)}
 	x.ev = &evaluator{rules: sc.Rules, today: x.today, m: x.m}
